@@ -15,7 +15,8 @@ Definition lid := nat.
 Record node := mkNode { nkey : key; nmax : ts; nval : option lid }.
 Record slot := mkSlot { squeue : list node; swaiting : list lid }.
 Record lock := mkLock { lkeys : list key; lacq : nat; lstart : ts; lcommit : ts; lstale : bool }.
-Inductive event := EAcq (k : key) (i : lid) | ERel (k : key) (i : lid) (c : ts) | ERecycle (k : key).
+Inductive event := EAcq (k : key) (i : lid) | ERel (k : key) (i : lid) (c : ts) | ERecycle (k : key) (cur m : ts).
+(* ERecycle k cur m: recycle(cur) dropped the node of k, whose maxCommitTS was m *)
 Record latches := mkLat { slots : sid -> slot; locks : lid -> lock; glog : list event }.
 
 Definition set_slot (L : latches) (s : sid) (v : slot) : latches :=
@@ -49,7 +50,7 @@ Definition keep_node (cur : ts) (n : node) : bool :=
 Definition recycle_slot (L : latches) (s : sid) (cur : ts) : latches :=
   let sl := slots L s in
   add_log (set_slot L s (mkSlot (filter (keep_node cur) (squeue sl)) (swaiting sl)))
-          (map (fun n => ERecycle (nkey n)) (filter (fun n => negb (keep_node cur n)) (squeue sl))).
+          (map (fun n => ERecycle (nkey n) cur (nmax n)) (filter (fun n => negb (keep_node cur n)) (squeue sl))).
 Definition maybe_recycle (L : latches) (s : sid) (cur : ts) : latches :=
   if Nat.leb latch_list_count (length (squeue (slots L s))) then recycle_slot L s cur else L.
 
